@@ -266,6 +266,7 @@ var shadowMethods = map[string]bool{
 	"Load": true, "Store": true, "Add": true, "Swap": true, "CompareAndSwap": true,
 	"Lock": true, "Unlock": true, "RLock": true, "RUnlock": true, "TryLock": true, "TryRLock": true,
 	"Wait": true, "Broadcast": true, "Signal": true, "Done": true, "Get": true, "Put": true,
+	"Do": true, // sync.Once
 }
 
 func kindOf(pkgPath, typeName string) string {
